@@ -18,6 +18,7 @@
 -/
 import Rbgp.Export.ConvMaster
 import Rbgp.Export.RibIds
+import Rbgp.Export.RibAdm
 namespace Rbgp.Export.Props01
 open Rbgp.Export Rbgp.Export.Conv Rbgp.Export.ConvA
 
@@ -89,6 +90,29 @@ theorem destid_stable_drop (s : Shard) (h : RibIds.ShardOk s) (addr : Addr) :
     (∀ ch ∈ (s.drop addr).2, ∃ d ∈ s.dests, ch.net = d.net ∧ ch.destId = d.id ∧
        ((∀ d' ∈ (s.drop addr).1.dests, d'.net ≠ d.net) → ch.paths = [])) :=
   RibIds.drop_ok s h addr
+
+/-! ## what the RIB model guarantees about the changes it emits (the id part of admissibility)
+
+    `Admissible` / `AdmA` are hypotheses of the session theorems below and `okRun` evaluates them
+    along every run.  Their two id conditions (the id of a change belongs to its prefix and to no other
+    prefix) follow from the RIB model; the three conditions relating flags and paths to the previous
+    change (`bestSame`, `anySame`, `pidSame`), "the session's view lags the RIB by the queued changes"
+    and "view = RIB snapshot at a quiet point" remain hypotheses evaluated along the run. -/
+
+theorem insert_change_id_admissible (s : Shard) (h : RibIds.ShardOk s) (hroom : s.used.length + 1 < 16777216)
+    (net : Net) (srcIdx : Nat) (src : Source) (rpid : Nat) (nh : Option Nh) (attrs : Attrs) (aid : Nat)
+    (filtered nhInvalid : Bool) (u : Change Net)
+    (hu : (s.insert net srcIdx src rpid nh attrs aid filtered nhInvalid).2 = some u) :
+    RibAdm.IdAdm (RibAdm.idView s) u :=
+  RibAdm.insert_idAdm s h hroom net srcIdx src rpid nh attrs aid filtered nhInvalid u hu
+
+theorem remove_change_id_admissible (s : Shard) (h : RibIds.ShardOk s) (net : Net) (src : Source) (rpid : Nat)
+    (u : Change Net) (hu : (s.remove net src rpid).2 = some u) : RibAdm.IdAdm (RibAdm.idView s) u :=
+  RibAdm.remove_idAdm s h net src rpid u hu
+
+theorem drop_change_id_admissible (s : Shard) (h : RibIds.ShardOk s) (addr : Addr) (u : Change Net)
+    (hu : u ∈ (s.drop addr).2) : RibAdm.IdAdm (RibAdm.idView s) u :=
+  RibAdm.drop_idAdm s h addr u hu
 
 /-! ## export_invariant: every step of an established session keeps `SInv` -/
 
@@ -206,8 +230,12 @@ theorem withdraw_on_wire_addpath (sess : Sess) (hm : sess.max ≠ 1) (rib0 : Rib
     flushes, fresh dump) whose computed hypotheses hold: `Conv.okRun c` = no LLGR stale period starts,
     every delivered change is admissible for the session's view (in the session's mode, with or
     without add-path), every soft reset walks a snapshot of the view's destinations, no policy change
-    is left without its soft reset, and the final RIB snapshot is consistent, carries the view's
-    paths (best paths for a session without add-path) and only announced prefixes.  The driver evaluates `okRun` on every generated case. -/
+    is left without its soft reset, and — at every flush that leaves the channel empty and at the end of
+    the history, which are the points the checker judges — the RIB snapshot is consistent, carries the
+    view's paths (best paths for a session without add-path) and only announced prefixes.  `okRun` is a
+    hypothesis evaluated along the run, not derived from the RIB model (only its id part is: see
+    `*_change_id_admissible`); the driver evaluates it on every generated case and reports in-order
+    histories without LLGR period on which it fails. -/
 theorem check_run_ok (c : Case01) (h : Conv.okRun c = true) : Spec01.check c (run01 c) = .ok :=
   Conv.check_run_ok c h
 
@@ -266,6 +294,9 @@ example : (run01 caseOvertake).overtaken = 1 := by decide
 #print axioms destid_stable_insert
 #print axioms destid_stable_remove
 #print axioms destid_stable_drop
+#print axioms insert_change_id_admissible
+#print axioms remove_change_id_admissible
+#print axioms drop_change_id_admissible
 #print axioms export_invariant_establish_addpath
 #print axioms export_invariant_deliver_addpath
 #print axioms export_invariant_flush_addpath
